@@ -212,9 +212,9 @@ func runC07(c *Ctx, r *Report) {
 	r.Rule("C07/K4", "a long-lived reader goroutine sends on an unbuffered struct-field channel only inside a select that also waits on its done channel", 2)
 	r.Rule("C07/K5", "a worker's send on a local unbuffered channel is always received: the spawner receives unconditionally and as often as the worker sends, or the send is in a select with an alternative", 6)
 	r.Rule("C07/K6", "the channel reader polls done after a failed transport read, before forwarding the error and before returning; the closer keeps its stop request pending", 3)
-	r.Rule("C07/L", "every struct field accessed by two thread classes with a post-start write is protected by a common must-held lock (or is a channel/sync value)", 8)
+	r.Rule("C07/L", "every struct field accessed by two thread classes with a post-start write is protected by a common must-held lock (or is a channel/sync value)", 4)
 	r.Rule("C07/M", "a map field a reader goroutine inserts into is never assigned anything but a fresh map once that goroutine may run", 2)
-	r.Rule("C07/lock-paired", "every Lock/RLock of a library mutex is followed on all paths to the return by its Unlock/RUnlock or a deferred one", 8)
+	r.Rule("C07/lock-paired", "every Lock/RLock of a library mutex is followed on all paths to the return by its Unlock/RUnlock or a deferred one", 4)
 	r.Rule("C07/eof-chain", "every transport read function hands its error on unwrapped or wrapped with %w, so the reader's errors.Is(err, io.EOF) sees the end of the stream", 6)
 	r.Rule("C07/impl-close-all", "Close of each built-in transport releases every closable resource it holds (or finds it nil) before any return", 3)
 	r.Rule("C07/close-reaches-transport", "every return of Channel.Close is preceded by Transport.Close; the timeout edge is forced; the forced path takes no read lock; reads hold the read lock; every driver Close reaches Channel.Close", 6)
